@@ -6,12 +6,15 @@ Mirrors, branch for branch:
   `import_module`; `Loaded` → fill `module_cache`, push the module instance / the exported symbol;
   `Compiled` → rewind the instruction pointer, put the importer to sleep, run the body on a child
   fiber whose parent is the importer; `NotFound` → ImportError), `op_export`;
-* `laythe_vm/src/vm/source_loader.rs`: `import_module`, `load_missing_module`,
-  `find_missing_module` (with its `path[0]` slip, D19; the parameter `fixed` selects the repaired
-  walk `path[index]` of `notes/candidate_fixes.patch`);
+* `laythe_vm/src/vm/source_loader.rs`: `import_module` (package map lookup, `Package::import`, and the
+  guard that only package `self` is backed by the files next to the script), `load_missing_module`,
+  `find_missing_module`, `Vm::module` (creates a module, does *not* touch the package map) and
+  `Vm::main_module` (the only user module registered as a package: `self`);
+* `laythe_vm/src/vm/mod.rs`: `Vm::new` (`add_package(std_lib)`), `run` / `repl` (`main_module`);
 * `laythe_core/src/module/mod.rs`: `import`, `insert_module`, `get_module`, `export_symbol`,
   `get_exported_symbol_by_name`, `module_instance` (a *fresh snapshot* of the exported symbols);
-* `laythe_core/src/module/package.rs`: `Package::import`.
+* `laythe_core/src/module/package.rs`: `Package::import`;
+* `laythe_lib/src/lib.rs` `create_std_lib`: the module tree of the standard library (`stdModules`).
 
 Because an importer sleeps until its child fiber has completed (and generated programs have no
 other fibers), the set of live fibers is a stack: `St.frames` (head = running fiber, each next
@@ -40,6 +43,12 @@ inductive Binding
   | obj (cls : String) (fields : List (String × Val))
   deriving DecidableEq, Repr, Inhabited
 
+/-- A package name written in an import that is not `self`.  (Imports from `self` are the
+constructors `importWhole` / `importSyms`, whose path is relative to the script's directory.) -/
+abbrev ForeignPkg := { s : String // s ≠ "self" }
+
+instance : Inhabited ForeignPkg := ⟨⟨"std", by decide⟩⟩
+
 inductive Expr
   | sym (name : String)
   | field (obj name : String)
@@ -60,6 +69,9 @@ inductive Stmt
   | importSyms (path : Path) (syms : List (String × Option String))
   /-- a single `ImportSym` instruction (only produced by `expand`) -/
   | importSym (path : Path) (sym : String) (rename : Option String)
+  /-- `import pkg.p as name;` for a package name other than `self` (`std`, or any other identifier —
+  notably the name of a user module) -/
+  | importPkg (pkg : ForeignPkg) (path : Path) (name : String)
   /-- `print("tag=${e}")` (call / instantiate according to the value's kind; a failing property
   access is caught and prints `tag=!`) -/
   | emit (tag : String) (e : Expr)
@@ -114,8 +126,16 @@ inductive Event
   | boundSym (importer : Path) (name : String) (pos : Path) (sym : String) (v : Val)
   deriving DecidableEq, Repr, Inhabited
 
+/-- What a package name of `Vm.packages` stands for: the standard library (a fixed module tree,
+`stdModules`) or the tree of user modules `St.mods` rooted at the main script. -/
+inductive PkgRoot | std | self
+  deriving DecidableEq, Repr, Inhabited
+
 structure St where
   mods : List ModSt
+  /-- `Vm.packages`: package name → root.  Written by `Vm::new` (`std`) and `Vm::main_module`
+  (`self`) only; loading a user module (`Vm::module`) does not touch it. -/
+  packages : List (String × PkgRoot)
   /-- `module_cache`: resolved import path → module (by tree position) -/
   cache : List (Path × Path)
   frames : List Frame
@@ -141,6 +161,7 @@ def Stmt.declared : Stmt → List String
   | .importWhole p r => [r.getD (p.getLast?.getD "")]
   | .importSyms _ syms => syms.map (fun s => s.2.getD s.1)
   | .importSym _ sym r => [r.getD sym]
+  | .importPkg _ _ n => [n]
   | _ => []
 
 /-- Module-level names are declared up front (`begin_module_scope` emits one `DeclareModSym` per
@@ -194,25 +215,17 @@ def treeImport (mods : List ModSt) (cur : Path) : Path → Option Path
 def packageImport (mods : List ModSt) (path : Path) : Option Path :=
   if path = [] then some [] else treeImport mods [] path
 
-/-- `find_missing_module(module, path, index)`.  The pinned code looks up `path[0]` at every level
-(`fixed = false`, D19); the repaired code looks up `path[index]` and stops at the end of the path.
-Returns the deepest module reached and the split index. `fuel` bounds the descent (the tree is
-finite; `mods.length + 1` always suffices). -/
-def findMissing (fixed : Bool) (mods : List ModSt) : Nat → Path → Path → Nat → Path × Nat
+/-- `find_missing_module(module, path, index)`: walk down the tree along `path[index]`, stop at the
+end of the path or at the first segment that is not a child.  Returns the deepest module reached
+and the split index. `fuel` bounds the descent (`path.length + 1` always suffices). -/
+def findMissing (mods : List ModSt) : Nat → Path → Path → Nat → Path × Nat
   | 0, cur, _, index => (cur, index)
   | fuel + 1, cur, path, index =>
-    if fixed then
-      if index ≥ path.length then (cur, path.length)
-      else
-        let seg := path.getD index ""
-        if hasMod mods (cur ++ [seg]) then findMissing fixed mods fuel (cur ++ [seg]) path (index + 1)
-        else (cur, index)
+    if index ≥ path.length then (cur, path.length)
     else
-      match path with
-      | [] => (cur, 0)
-      | p0 :: _ =>
-        if hasMod mods (cur ++ [p0]) then findMissing fixed mods fuel (cur ++ [p0]) path (index + 1)
-        else (cur, index)
+      let seg := path.getD index ""
+      if hasMod mods (cur ++ [seg]) then findMissing mods fuel (cur ++ [seg]) path (index + 1)
+      else (cur, index)
 
 inductive ImportRes
   | loaded (pos : Path)
@@ -223,9 +236,11 @@ inductive ImportRes
   deriving DecidableEq, Repr, Inhabited
 
 /-- `load_missing_module`: only the *first* missing segment is loaded per attempt; the import
-instruction is re-executed after the child fiber finished and then loads the next one. -/
-def loadMissing (fixed : Bool) (g : Graph) (mods : List ModSt) (path : Path) : ImportRes :=
-  let r := findMissing fixed mods (mods.length + path.length + 1) [] path 0
+instruction is re-executed after the child fiber finished and then loads the next one.  The new
+module is created by `Vm::module` — which registers nothing in the package map — and attached to
+its parent in the tree. -/
+def loadMissing (g : Graph) (mods : List ModSt) (path : Path) : ImportRes :=
+  let r := findMissing mods (mods.length + path.length + 1) [] path 0
   let parent := r.1
   let index := r.2
   if index > path.length then .panic "split_at: mid > len"
@@ -241,13 +256,52 @@ def loadMissing (fixed : Bool) (g : Graph) (mods : List ModSt) (path : Path) : I
         if hasMod mods (parent ++ [name]) then .panic "not yet implemented"
         else .compiled (parent ++ [name]) file body
 
-/-- `Vm::import_module` for package `self`. -/
-def importModule (fixed : Bool) (g : Graph) (mods : List ModSt) (path : Path) : ImportRes :=
+/-- `Vm::import_module` once the package map answered with the tree of user modules for the package
+name `self`: `Package::import`, and on `ModuleDoesNotExist` (the guard `package == SELF` holds)
+`load_missing_module`. -/
+def importModule (g : Graph) (mods : List ModSt) (path : Path) : ImportRes :=
   match packageImport mods path with
   | some pos => .loaded pos
-  | none => loadMissing fixed g mods path
+  | none => loadMissing g mods path
 
 def dotted (path : Path) : String := ".".intercalate ("self" :: path)
+
+/-! ### packages other than `self` -/
+
+/-- The module tree of the standard library below its root module (`create_std_lib`: `math`, `io`
+with `stdio` and `fs`, `env`, `regexp`).  Tied to the source by `Gen.stdModules`
+(`C17_stdModules_gen`) and to the behaviour by the `stdpaths` stream of the check. -/
+def stdModules : List Path := [["math"], ["io"], ["io", "stdio"], ["io", "fs"], ["env"], ["regexp"]]
+
+/-- `Package::import` on the standard library: the empty path is its root module, otherwise
+`Module::import` walks the (fixed, prefix-closed) tree. -/
+def stdHas (path : Path) : Bool := path == [] || stdModules.contains path
+
+/-- `Vm.packages` after `Vm::new` and `Vm::main_module` -/
+def initPackages : List (String × PkgRoot) := [("std", .std), ("self", .self)]
+
+inductive ForeignRes
+  /-- a module of the standard library (path below its root) -/
+  | std (path : Path)
+  /-- a user module (tree position) — only possible if the package map hands out the user tree
+  under a name other than `self`, which no reachable state does (`C17_packages_constant`) -/
+  | user (pos : Path)
+  | notFound
+  deriving DecidableEq, Repr, Inhabited
+
+/-- `Vm::import_module` for an import whose package name `pkg` is not `self`: the package map is
+asked for `pkg`; `Package::import` walks that package's tree; a missing module is `NotFound`
+because only package `self` is backed by files (guard `import.package() == SELF`). -/
+def importForeign (pkgs : List (String × PkgRoot)) (mods : List ModSt) (pkg : String) (path : Path) : ForeignRes :=
+  match lookup pkg pkgs with
+  | none => .notFound
+  | some .std => if stdHas path then .std path else .notFound
+  | some .self =>
+    match packageImport mods path with
+    | some pos => .user pos
+    | none => .notFound
+
+def dottedPkg (pkg : String) (path : Path) : String := ".".intercalate (pkg :: path)
 
 /-! ### the machine -/
 
@@ -265,22 +319,27 @@ def lookupPath (path : Path) : List (Path × Path) → Option Path
   | [] => none
   | (k, v) :: rest => if k = path then some v else lookupPath path rest
 
-/-- Common front part of `op_import` / `op_import_symbol`: returns the new state and, when the
-module is available *now*, its tree position.  `none` means the instruction did not complete
-(child fiber started and the instruction will be retried, or error, or panic). -/
-def importTarget (fixed : Bool) (g : Graph) (s : St) (path : Path) : St × Option Path :=
+/-- Common front part of `op_import` / `op_import_symbol` for an import from `self`: returns the new
+state and, when the module is available *now*, its tree position.  `none` means the instruction did
+not complete (child fiber started and the instruction will be retried, or error, or panic). -/
+def importTarget (g : Graph) (s : St) (path : Path) : St × Option Path :=
   match lookupPath path s.cache with
   | some pos => (s, some pos)
   | none =>
-    match importModule fixed g s.mods path with
-    | .loaded pos => ({ s with cache := (path, pos) :: s.cache }, some pos)
-    | .compiled pos file body =>
-      -- update_ip(-3); fiber.sleep(); create_fiber(fun, Some(self.fiber)); ContextSwitch
-      ({ s with mods := s.mods ++ [ModSt.fresh pos file body],
-                frames := { mod := pos, body := expand body } :: s.frames,
-                log := .start file pos :: s.log }, none)
-    | .notFound => (s.fail "ImportError" s!"Module {dotted path} not found", none)
-    | .panic msg => ({ s with status := .panic msg }, none)
+    -- `self.packages.get(&import.package())`
+    match lookup "self" s.packages with
+    | some .self =>
+      match importModule g s.mods path with
+      | .loaded pos => ({ s with cache := (path, pos) :: s.cache }, some pos)
+      | .compiled pos file body =>
+        -- update_ip(-3); fiber.sleep(); create_fiber(fun, Some(self.fiber)); ContextSwitch
+        ({ s with mods := s.mods ++ [ModSt.fresh pos file body],
+                  frames := { mod := pos, body := expand body } :: s.frames,
+                  log := .start file pos :: s.log }, none)
+      | .notFound => (s.fail "ImportError" s!"Module {dotted path} not found", none)
+      | .panic msg => ({ s with status := .panic msg }, none)
+    -- no reachable state: `self` is registered before the script starts and never replaced
+    | _ => (s.fail "ImportError" s!"Module {dotted path} not found", none)
 
 /-- print a value the way the generated programs do (`tag=${x}`, `${x()}`, `${x().v()}`) -/
 def showVal (s : St) (tag : String) : Val → St
@@ -296,7 +355,7 @@ def showVal (s : St) (tag : String) : Val → St
       | _ => s.fail "RuntimeError" s!"Undefined variable {target}"
 
 /-- One statement of the running fiber `fr` (module `me`), the rest of whose body is `more`. -/
-def execStmt (fixed : Bool) (g : Graph) (s : St) (me : ModSt) (st : Stmt) (more : List Stmt) : St :=
+def execStmt (g : Graph) (s : St) (me : ModSt) (st : Stmt) (more : List Stmt) : St :=
   match st with
   | .mark str => { s.setBody more with out := s.out ++ [str] }
   | .decl exported k name n =>
@@ -314,7 +373,7 @@ def execStmt (fixed : Bool) (g : Graph) (s : St) (me : ModSt) (st : Stmt) (more 
   | .assign name n =>
     { s.setBody more with mods := updMod s.mods me.pos (fun m => m.setSym name (.val (.const .let_ n))) }
   | .importWhole path rename =>
-    let r := importTarget fixed g s path
+    let r := importTarget g s path
     match r.2 with
     | none => r.1
     | some pos =>
@@ -328,7 +387,7 @@ def execStmt (fixed : Bool) (g : Graph) (s : St) (me : ModSt) (st : Stmt) (more 
           log := .boundObj me.pos name pos fields :: r.1.log }
   | .importSyms _ _ => s.setBody more      -- never executed: `expand` removed it
   | .importSym path sym rename =>
-    let r := importTarget fixed g s path
+    let r := importTarget g s path
     match r.2 with
     | none => r.1
     | some pos =>
@@ -342,6 +401,20 @@ def execStmt (fixed : Bool) (g : Graph) (s : St) (me : ModSt) (st : Stmt) (more 
           { r.1.setBody more with
             mods := updMod r.1.mods me.pos (fun x => x.setSym name (.val v)),
             log := .boundSym me.pos name pos sym v :: r.1.log }
+  | .importPkg pkg path name =>
+    -- (the `module_cache` entry of such an import is not modelled: the trees of these packages
+    -- never change, so a cache hit and the walk give the same module)
+    match importForeign s.packages s.mods pkg.val path with
+    | .std p =>
+      { s.setBody more with
+        mods := updMod s.mods me.pos (fun x => x.setSym name (.obj (p.getLast?.getD pkg.val) [])) }
+    | .user pos =>
+      match getMod s.mods pos with
+      | none => s.fail "InternalError" "dangling module"
+      | some m =>
+        { s.setBody more with
+          mods := updMod s.mods me.pos (fun x => x.setSym name (.obj m.name m.instanceFields)) }
+    | .notFound => s.fail "ImportError" s!"Module {dottedPkg pkg.val path} not found"
   | .emit tag (.sym name) =>
     match lookup name me.syms with
     | some (some (.val v)) => showVal (s.setBody more) tag v
@@ -360,7 +433,7 @@ def execStmt (fixed : Bool) (g : Graph) (s : St) (me : ModSt) (st : Stmt) (more 
 
 /-- One scheduling step of the VM: run the next statement of the running fiber; a fiber whose body
 is exhausted completes and its parent (the importer) is woken and retries its import. -/
-def step (fixed : Bool) (g : Graph) (s : St) : St :=
+def step (g : Graph) (s : St) : St :=
   match s.status with
   | .running =>
     match s.frames with
@@ -374,18 +447,18 @@ def step (fixed : Bool) (g : Graph) (s : St) : St :=
       | st :: more =>
         match getMod s.mods fr.mod with
         | none => { s with status := .panic "no current module" }
-        | some me => execStmt fixed g s me st more
+        | some me => execStmt g s me st more
   | _ => s
 
 def init (g : Graph) : St :=
-  { mods := [ModSt.fresh [] [] g.main], cache := [], frames := [{ mod := [], body := expand g.main }],
+  { mods := [ModSt.fresh [] [] g.main], packages := initPackages, cache := [], frames := [{ mod := [], body := expand g.main }],
     out := [], status := .running, log := [.start [] []] }
 
-def run (fixed : Bool) (g : Graph) : Nat → St
+def run (g : Graph) : Nat → St
   | 0 => init g
-  | n + 1 => step fixed g (run fixed g n)
+  | n + 1 => step g (run g n)
 
-/-! ### envelopes (decidable) -/
+/-! ### import paths of a graph -/
 
 def Stmt.importPath? : Stmt → Option Path
   | .importWhole p _ => some p
@@ -397,16 +470,6 @@ def importPaths (body : List Stmt) : List Path := body.filterMap Stmt.importPath
 
 def Graph.allImportPaths (g : Graph) : List Path :=
   importPaths g.main ++ g.files.flatMap (fun f => importPaths f.2)
-
-/-- Outside the signature of D19: every import path below `self` has one or two segments, and a
-two-segment path does not repeat its first segment. -/
-def pathOk (p : Path) : Bool :=
-  match p with
-  | [_] => true
-  | [a, b] => a != b
-  | _ => false
-
-def Graph.noD19 (g : Graph) : Bool := g.allImportPaths.all pathOk
 
 /-- non-empty prefixes of a path, shortest first: the files an import of `p` may load -/
 def prefixes : Path → List Path
